@@ -79,6 +79,11 @@ struct parquet_schema_element {
     /* Field 10: logicalType (modern logical type) */
     bool has_logical_type;
     carquet_logical_type_t logical_type;
+
+    /* Derived, never serialized: definition/repetition level reached at this
+     * node counting the node itself and all of its ancestors */
+    int16_t max_def_level;
+    int16_t max_rep_level;
 };
 
 /* ============================================================================
